@@ -4,6 +4,10 @@ import json, sys
 props=[json.loads(l)['id'] for l in open('/verif/properties.jsonl')]
 TECH="bounded symbolic execution of the real go/ssa code; every branch, panic guard and assertion decided by SMT (z3, cross-checked with z3 5.1 and cvc5); counterexamples replayed natively"
 CHECKS={
+ "C10": dict(
+   text="Bounded model checking by symbolic execution with time as a solver variable: every time.Now reading is a fresh non-decreasing 64-bit variable, time.After records its argument. (1) One real rateLimit step from an ARBITRARY state (penalty, last-accounting instant, line length, both clock readings symbolic) is asserted equal to Hybrid's rule written in the harness - an inductive step, so it covers histories of any length. (2) The real write(): Flood symbolic; sleeps exactly once for exactly the line's charge, before the bytes reach the wire, iff the new penalty exceeds 10 s; never with Flood. (3) k consecutive lines from a fresh client through write() with arbitrary idle gaps: per-step rule and the window bound for every run i..j. 64-bit wrap-around semantics are kept (bit-vectors; cvc5 --solve-bv-as-int=sum decides the window queries, z3 the rest). Counterexamples are replayed natively against a temporary copy of the sources whose clock calls are redirected to the counterexample's readings.",
+   ref="DESIGN.md §4 C10",
+   note="Bounds: k = 3 (quick) / 4 (thorough) lines with lengths from {0,120,510}; penalty <= 2^40 ns, length <= 2^20, clock < 2^50 ns. Environment contract for the window bound: a line reaches the socket within 2 s of the end of its accounting/hold (DESIGN.md explains why an unconstrained stall is not a finding). Real sleeping/OS clock are stubs."),
  "C08": dict(
    text="Bounded model checking by symbolic execution: each of the 28 exported command methods of *Conn is run from go/ssa with every argument byte a solver variable (all 256 values, CR/LF/NUL/\\x01 included), SplitLen from 6 representative values; the lines queued on the real output channel are asserted CR/LF-free and to begin with the method's verb, then the real write() is run over a bufio model on an in-memory connection and the wire is asserted to be exactly line+CRLF with one flush per line. Each assertion is an SMT validity query over all argument values within the length bound.",
    ref="DESIGN.md §4 C08",
